@@ -239,8 +239,35 @@ def c20(idx: Index, rep: Report, tier: str) -> None:
 
 EXTRA = {"C01": c01, "C02": c02, "C04": c04, "C05": c05, "C06": c06, "C10": c10, "C14": c14, "C15": c15, "C17": c17, "C20": c20}
 
+# generic sibling / pairing sweeps, armed per property for the modules the property is anchored in
+T20_SCOPE = {
+    "C05": ("engines.plan_validator", "model.timing"),
+    "C06": ("engines.compilers.utils", "engines.compilers.usertype_fluents_remover", "engines.compilers.grounder"),
+    "C20": ("grpc.proto_writer", "grpc.proto_reader"),
+    "C28": ("engines.compilers.timed_to_sequential",),
+}
+T21_SCOPE = {
+    "C01": ("engines.sequential_simulator", "engines.mixins.sequential_simulator", "model.state"),
+    "C03": ("engines.plan_validator",),
+    "C06": ("engines.compilers",),
+    "C09": ("engines.factory",),
+    "C20": ("grpc.proto_writer", "grpc.proto_reader"),
+    "C22": ("model.problem", "model.mixins", "model.action", "model.contingent", "model.htn", "model.multi_agent"),
+    "C24": ("model.effect", "model.transition", "model.mixins.timed_conds_effs"),
+    "C32": ("engines.factory",),
+}
+
 
 def run_extra(prop: str, idx: Index, rep: Report, tier: str) -> None:
+    from ..rules2 import openness_pairing, swapped_arguments
+
     fn = EXTRA.get(prop)
     if fn is not None:
         fn(idx, rep, tier)
+    if prop in T20_SCOPE:
+        n = openness_pairing(rep, f"{prop} T20 openness-side-pairing", _funcs_of(idx, *T20_SCOPE[prop]))
+        rep.count("openness_pairing_sites", n)
+    if prop in T21_SCOPE:
+        n = swapped_arguments(rep, f"{prop} T21 swapped-arguments", idx, _funcs_of(idx, *T21_SCOPE[prop]))
+        rep.count("resolved_call_sites_checked_for_swaps", n)
+        rep.ok(f"{prop} T21 swapped-arguments", f"{n} uniquely resolved call sites with >= 2 positional arguments: names agree with parameter positions", "unified_planning:0", construct=f"{n} call sites")
